@@ -84,6 +84,9 @@ def gen_random(rng, index, tier):
         if cands:
             spec["proxied"] = sorted(rng.sample(cands, rng.randint(1, min(2, len(cands)))))
             spec["pkg"] = spec["pkg"] + "p" + "".join(map(str, spec["proxied"]))
+    if rng.random() < 0.3:
+        spec["global_tw"] = rng.sample(TW.GLOBAL_KINDS, rng.randint(1, 4))
+        spec["pkg"] = spec["pkg"] + "g" + R.digest(spec["global_tw"])[:6]
     faults = {"log": [], "flush": False, "inspect": False}
     r = rng.random()
     if r < 0.65:
@@ -95,7 +98,7 @@ def gen_random(rng, index, tier):
             else:
                 faults[k] = True
         faults["log"] = sorted(set(faults["log"]))
-    return {
+    plan = {
         "prog": spec,
         "k": rng.choice([0, 0, 1, 3, 10]),
         "filter": rng.choice(["fixture", "fixture", "none", "subset"]),
@@ -105,6 +108,26 @@ def gen_random(rng, index, tier):
         "pre_profiler": rng.choice(["none", "none", "recorder", "outer"]),
         "block_exit": rng.choice(["normal", "normal", "exception"]),
     }
+    if rng.random() < 0.15:
+        # a worker thread started inside the traced block that outlives it: parked until the block has exited, then it runs fixture code
+        kn2 = dict(kn, tw_p=0, rnd_p=0, aio_p=0, top_max=4, budget=8)
+        ctx2 = D.Ctx(rng, spec, kn2)
+        ts = D.gen_script(ctx2, None, 2, top=True)
+        for a in ts:
+            a["catch"] = True
+        _shift_handles(ts, 500)
+        plan["thread"] = {"script": ts}
+    return plan
+
+
+def _shift_handles(acts, off):
+    for a in acts:
+        if "h" in a:
+            a["h"] += off
+        for t in a.get("tasks") or ():
+            t["h"] += off
+            _shift_handles(t.get("script") or [], off)
+        _shift_handles(a.get("script") or [], off)
 
 
 def sample_view(plan):
@@ -146,6 +169,8 @@ def summ(v, depth=0):
         return ["dict"] + [[summ(k, depth + 1), summ(x, depth + 1)] for k, x in v.items()]
     if isinstance(v, type):
         return "class:" + v.__name__
+    if t.__name__ == "ChainMap":
+        return ["ChainMap"] + [sorted(repr(k) for k in dict.keys(m)) if isinstance(m, dict) else type(m).__name__ for m in v.maps]
     return t.__name__
 
 
@@ -159,6 +184,8 @@ def journal_summary(J):
             out.append([k, rec[1], summ(rec[2])])
         elif k == "B":
             out.append([k, rec[1], rec[2], summ(rec[3])])
+        elif k == "MU":
+            out.append([k, rec[1], summ(rec[2]), summ(rec[3])])
         elif k == "RND":
             out.append([k, rec[1], repr(rec[2])])
         else:
@@ -201,15 +228,34 @@ def run_once(plan, lp, traced):
     outer_logger = None
     pre_obj = None
 
+    import threading
+
+    th = {"t": None, "gate": None, "prof": "not-run", "top": mat.script(plan["thread"]["script"]) if plan.get("thread") else None}
+    obs["threading_prof_before"] = threading.getprofile() if hasattr(threading, "getprofile") else None
+
+    def worker():
+        th["gate"].acquire()          # parked until the traced block has exited
+        th["prof"] = sys.getprofile()
+        D.run_top(th["top"])
+
+    def start_worker():
+        if th["top"] is not None:
+            th["gate"] = threading.Lock()
+            th["gate"].acquire()
+            th["t"] = threading.Thread(target=worker, daemon=True)
+            th["t"].start()
+
     def block():
         if traced:
             with trace_calls(logger, plan["k"], flt, None):
                 obs["tracer"] = sys.getprofile()
                 D.run_top(top)
+                start_worker()
                 if plan["block_exit"] == "exception":
                     raise rt.SimError("block")
         else:
             D.run_top(top)
+            start_worker()
             if plan["block_exit"] == "exception":
                 raise rt.SimError("block")
 
@@ -245,6 +291,16 @@ def run_once(plan, lp, traced):
     finally:
         TW.ARMED[0] = False
         sys.setprofile(base_prof)
+    obs["j_exit"] = len(rt.J)
+    obs["logs_at_exit"] = len(logger.logs)
+    obs["threading_prof_after"] = threading.getprofile() if hasattr(threading, "getprofile") else None
+    if th["t"] is not None:
+        # baton passing: the worker runs only while this thread waits in join()
+        th["gate"].release()
+        th["t"].join(20)
+        if th["t"].is_alive():
+            raise RuntimeError("harness: worker thread did not finish")
+        obs["thread_prof"] = th["prof"]
     obs["hj"] = list(TW.HJ)[len(mat_hj):]  # snapshot before the harness itself looks at any value
     obs["journal"] = list(rt.J)
     obs["summary"] = journal_summary(rt.J)
@@ -296,6 +352,10 @@ def meta_hooks_explained(journal, lp):
         elif k == "B":
             if type(rec[3]) is TW.MI or _meta_nested(rec[3]):
                 return True
+        elif k == "MU":
+            # the container as it was before an in-place mutation (what the tracer saw at entry)
+            if _meta_nested(rec[3]) or _meta_nested(rec[2]):
+                return True
     return False
 
 
@@ -303,7 +363,8 @@ def classify_hook(entry, meta_explained=True):
     """Cause classifier for one hook invocation the tracer caused (known findings F6)."""
     oid, hook, detail = entry
     if hook in ("GA.__getattribute__", "CP.__class__") and (detail in ("__class__", None)):
-        return "class_attr_read_by_isinstance"
+        # oids from 8000 are the tripwires bound to module globals (both entries are 'fixed': they document, they suppress nothing)
+        return "class_attr_read_by_globals_scan" if isinstance(oid, int) and 8000 <= oid < 9000 else "class_attr_read_by_isinstance"
     if hook in ("CG.__getattr__", "CallProxy.__getattr__") and detail in ("__code__", "__wrapped__"):
         return "has_code_getattr_on_callable"
     if hook == "GA.__getattribute__" and detail in ("__code__", "__wrapped__"):
@@ -364,7 +425,7 @@ def execute(plan):
         extra = extra + [("materialisation", "differs", None)]
     seen_causes = set()
     # without a code filter the tracer also types the arguments of the simulator's own frames, which carry every materialised value
-    meta_explained = True if plan["filter"] == "none" or not any(e[1].startswith("Meta.") for e in extra) else meta_hooks_explained(B["journal"], lp)
+    meta_explained = True if plan["filter"] == "none" or "MIcls" in (plan["prog"].get("global_tw") or ()) or not any(e[1].startswith("Meta.") for e in extra) else meta_hooks_explained(B["journal"], lp)
     for e in extra:
         cause = classify_hook(e, meta_explained)
         key = (cause, e[1] if cause is None else None)
@@ -382,6 +443,14 @@ def execute(plan):
              "after the tracing context exited, sys.getprofile() is not the previously installed profiler")
     if not A["profiler_ok"]:
         raise AssertionError("harness: profiler changed in the untraced execution")
+    if B["threading_prof_after"] is not B["threading_prof_before"]:
+        viol("C03.profiler-restored", None, {"what": "threading profile hook"}, "after the tracing context exited, the process-wide threading profile hook is not what it was before")
+    if plan.get("thread"):
+        evaluated += 1
+        late = len(B["logger"].logs) - B["logs_at_exit"]
+        if B.get("thread_prof") is not None and B.get("thread_prof") is B["tracer"] or late:
+            viol("C03.profiler-restored", None, {"what": "thread started inside the block", "late_logs": late},
+                 "a thread started inside the tracing block is still being traced after the context exited (%d traces handed to the logger after its flush)" % late)
     # --- flush exactly once
     evaluated += 1
     lg = B["logger"]
@@ -393,7 +462,7 @@ def execute(plan):
     # --- progress: every completed definite call is still handed to log (exactly one attempt)
     n_tw = sum(1 for rec in B["journal"] if rec[0] == "E" and any(TW.oid_of(x) is not None for x in rec[3].values() if type(x).__module__ == "dst.world.tripwires"))
     if not faults.get("inspect") and not plan["prog"].get("proxied"):
-        TVs, ev, info, calls, comps, matched = TT.check(lp, B["journal"], lg.logs, plan["k"], get_type, prefix="C03", admitted=B["admitted"])
+        TVs, ev, info, calls, comps, matched = TT.check(lp, B["journal"][:B["j_exit"]], lg.logs[:B["logs_at_exit"]], plan["k"], get_type, prefix="C03", admitted=B["admitted"])
         evaluated += len(comps)
         for v in TVs:
             if v["clause"] in ("C03.once", "C03.order"):
@@ -415,6 +484,10 @@ def execute(plan):
         probes["traced block exits by exception"] = 1
     if plan["prog"].get("proxied"):
         probes["callable proxy bound to a module global"] = 1
+    if plan["prog"].get("global_tw"):
+        probes["tripwire objects bound to module globals"] = 1
+    if plan.get("thread"):
+        probes["thread started inside the block runs fixture code after the context exited"] = 1
     if plan.get("enumerated"):
         probes["enumerated single/double fault placement"] = 1
     return {
